@@ -108,7 +108,7 @@ var v9IRProfile = irProfile{
 
 // ---- types ----
 
-const tyUntyped = "untyped" // an integer constant: takes the type of the other operand
+const irTyUntyped = "untyped" // an integer constant: takes the type of the other operand
 
 func (g *irGen) tyOfTypeExpr(e ast.Expr) string {
 	switch t := e.(type) {
@@ -338,7 +338,7 @@ func (g *irGen) ipfixName(e ast.Expr, name string) bool {
 	return pkgSel(e, g.p.ipfixPkg, name)
 }
 
-var convTypes = map[string]string{"int": ".int", "uint8": ".u8", "uint16": ".u16", "uint32": ".u32"}
+var irConvTypes = map[string]string{"int": ".int", "uint8": ".u8", "uint16": ".u16", "uint32": ".u32"}
 
 // expr returns the Lean term and the IR type ("" when unknown)
 func (g *irGen) expr(e ast.Expr) (string, string) {
@@ -348,7 +348,7 @@ func (g *irGen) expr(e ast.Expr) (string, string) {
 	case *ast.BasicLit:
 		if x.Kind == token.INT {
 			if v, err := strconv.ParseUint(x.Value, 0, 63); err == nil {
-				return fmt.Sprintf("(.lit %d)", v), tyUntyped
+				return fmt.Sprintf("(.lit %d)", v), irTyUntyped
 			}
 		}
 	case *ast.Ident:
@@ -375,7 +375,7 @@ func (g *irGen) expr(e ast.Expr) (string, string) {
 	case *ast.IndexExpr:
 		s, ty := g.expr(x.X)
 		i, ity := g.expr(x.Index)
-		if et := elemTy(ty); et != "" && (isIntTy(ity) || ity == tyUntyped) {
+		if et := elemTy(ty); et != "" && (isIntTy(ity) || ity == irTyUntyped) {
 			return fmt.Sprintf("(.index %s %s)", s, i), et
 		}
 	case *ast.BinaryExpr:
@@ -414,20 +414,20 @@ func (g *irGen) binary(x *ast.BinaryExpr) (string, string) {
 		}
 	case token.EQL, token.NEQ:
 		t := ta
-		if t == tyUntyped || t == "nil" {
+		if t == irTyUntyped || t == "nil" {
 			t = tb
 		}
-		okTy := (isIntTy(ta) || ta == tyUntyped) && (isIntTy(tb) || tb == tyUntyped) && (ta == tb || ta == tyUntyped || tb == tyUntyped) && t != tyUntyped
+		okTy := (isIntTy(ta) || ta == irTyUntyped) && (isIntTy(tb) || tb == irTyUntyped) && (ta == tb || ta == irTyUntyped || tb == irTyUntyped) && t != irTyUntyped
 		okTy = okTy || (ta == ".error" && tb == "nil") || (ta == "nil" && tb == ".error") || (ta == ".bool" && tb == ".bool")
 		if okTy {
 			return fmt.Sprintf("(.bin %s %s %s %s)", op, t, a, b), ".bool"
 		}
 	default:
 		t := ta
-		if t == tyUntyped {
+		if t == irTyUntyped {
 			t = tb
 		}
-		if isIntTy(t) && (ta == t || ta == tyUntyped) && (tb == t || tb == tyUntyped) {
+		if isIntTy(t) && (ta == t || ta == irTyUntyped) && (tb == t || tb == irTyUntyped) {
 			switch x.Op {
 			case token.ADD, token.SUB, token.AND, token.QUO:
 				return fmt.Sprintf("(.bin %s %s %s %s)", op, t, a, b), t
@@ -501,7 +501,7 @@ func (g *irGen) composite(x *ast.CompositeLit) (string, string) {
 			}
 			v, vty := g.expr(kv.Value)
 			want := g.fields["DecodedField"][k.Name]
-			if want == "" || vty == "" || (vty != want && !(vty == tyUntyped && isIntTy(want))) || got[k.Name] != "" {
+			if want == "" || vty == "" || (vty != want && !(vty == irTyUntyped && isIntTy(want))) || got[k.Name] != "" {
 				return g.unrecS(x), ""
 			}
 			got[k.Name] = v
@@ -542,10 +542,10 @@ func (g *irGen) callExpr(x *ast.CallExpr) (string, string) {
 			if elemTy(ty) != "" {
 				return "(.len " + a + ")", ".int"
 			}
-		case convTypes[id.Name] != "" && len(x.Args) == 1:
+		case irConvTypes[id.Name] != "" && len(x.Args) == 1:
 			a, ty := g.expr(x.Args[0])
-			if isIntTy(ty) || ty == tyUntyped {
-				return fmt.Sprintf("(.conv %s %s)", convTypes[id.Name], a), convTypes[id.Name]
+			if isIntTy(ty) || ty == irTyUntyped {
+				return fmt.Sprintf("(.conv %s %s)", irConvTypes[id.Name], a), irConvTypes[id.Name]
 			}
 		case id.Name == "new" && len(x.Args) == 1:
 			if ty := g.tyOfTypeExpr(x.Args[0]); !isOther(ty) {
@@ -657,7 +657,7 @@ func assignable(to, from string) bool {
 	if to == from {
 		return !isOther(to) || to == from
 	}
-	if from == tyUntyped {
+	if from == irTyUntyped {
 		return isIntTy(to)
 	}
 	if from == "nil" {
@@ -701,7 +701,7 @@ func (g *irGen) call(e ast.Expr) (irCall, bool) {
 			}
 			v, ty := g.expr(val)
 			want := g.fields["ElementKey"][name]
-			if want == "" || !(ty == want || ty == tyUntyped) {
+			if want == "" || !(ty == want || ty == irTyUntyped) {
 				return none, false
 			}
 			got[name] = v
@@ -730,7 +730,7 @@ func (g *irGen) call(e ast.Expr) (irCall, bool) {
 		case "Read":
 			if len(c.Args) == 1 {
 				a, ty := g.expr(c.Args[0])
-				if ty == ".int" || ty == tyUntyped {
+				if ty == ".int" || ty == irTyUntyped {
 					return irCall{".rdRead", []string{"(.val " + a + ")"}, []string{".bytes", ".error"}}, true
 				}
 			}
@@ -920,7 +920,7 @@ func (g *irGen) assignStmt(s *ast.AssignStmt) string {
 		var p, ty string
 		if id, isID := s.Lhs[0].(*ast.Ident); isID && define {
 			dty := ety
-			if dty == tyUntyped {
+			if dty == irTyUntyped {
 				dty = ".int"
 			}
 			if dty == "nil" {
@@ -944,7 +944,7 @@ func (g *irGen) assignStmt(s *ast.AssignStmt) string {
 		p, ty := g.lhs(s.Lhs[0])
 		cur, _ := g.expr(s.Lhs[0])
 		e, ety := g.expr(s.Rhs[0])
-		if p == "" || !isIntTy(ty) || !(ety == ty || ety == tyUntyped) {
+		if p == "" || !isIntTy(ty) || !(ety == ty || ety == irTyUntyped) {
 			return un
 		}
 		op := ".add"
@@ -983,7 +983,7 @@ func (g *irGen) declStmt(s *ast.DeclStmt) string {
 				ty := ety
 				if vs.Type != nil {
 					ty = g.tyOfTypeExpr(vs.Type)
-				} else if ety == tyUntyped {
+				} else if ety == irTyUntyped {
 					ty = ".int"
 				}
 				if ety == "" || ety == "nil" && vs.Type == nil || !assignable(ty, ety) {
